@@ -71,6 +71,8 @@ impl Property for C06 {
 
     fn run(&self, src: &mut Src, ctx: &RunCtx) -> RunReport {
         let mut rep = RunReport::default();
+        // every sixth run drives the repository's own cluster simulator (simulator::multi_node) instead of real nodes
+        if src.below(6) == 0 { return run_repo_simulator(src, ctx); }
         let n = 2 + src.below(3) as usize;
         let level = if src.chance(1, 3) { ConsistencyLevel::Causal } else { ConsistencyLevel::Eventual };
         let hashes = src.chance(2, 3);
@@ -290,4 +292,94 @@ impl Property for C06 {
         rep.sample = Some(json!({"full_redelivery_at_end": full_redelivery, "anti_entropy_instead_of_redelivery": anti_entropy_instead, "focus": focus, "nodes": n, "consistency": format!("{:?}", level), "type_changes": type_changes, "expiry": expiry, "script": script.iter().take(14).map(|(k, nd, c, o2)| if *k < 5 { format!("node{}: {}", nd + 1, show_cmd(c)) } else if *k < 8 { "net: deliver/duplicate/lose one message".to_string() } else if *k == 8 { format!("net: partition node{}|node{}", nd + 1, o2 + 1) } else { "net: heal".to_string() }).collect::<Vec<_>>() }));
         rep
     }
+}
+
+
+/// The repository's own cluster model (`MultiNodeSimulation`: SimulatedNode = CommandExecutor + ShardReplicaState,
+/// its gossip rounds with delay, loss and partitions, its anti-entropy exchange, broadcast or ring-routed) under a
+/// tape-drawn workload. Once the faults have stopped (partitions healed, loss off) and gossip plus anti-entropy have
+/// run, every replica responsible for a key serves the value of the write with the greatest stamp, and what its
+/// executor serves is what its replication state says.
+fn run_repo_simulator(src: &mut Src, ctx: &RunCtx) -> RunReport {
+    use redis_sim::redis::{Command, RespValue, SDS};
+    use redis_sim::simulator::multi_node::MultiNodeSimulation;
+    let mut rep = RunReport::default();
+    rep.probe("repo_cluster_simulator_run");
+    let n = 2 + src.below(4) as usize;
+    let mode = src.below(3); // 0 broadcast + automatic anti-entropy on heal, 1 broadcast without it, 2 ring-routed (selective gossip)
+    let rf = 1 + src.below(n as u64) as usize;
+    let loss = *src.pick(&[0.0f64, 0.0, 0.2, 0.6]);
+    let delay = *src.pick(&[(1u64, 10u64), (0, 0), (5, 60)]);
+    let nkeys = 1 + src.below(4) as usize;
+    // ops: 0 SET, 1 DEL, 2 partition, 3 heal, 4 gossip round, 5 time passes
+    let ops: Vec<(u64, usize, usize, usize)> = src.list(40, 29, 30, |s| (s.weighted(&[6, 2, 2, 2, 4, 2]) as u64, s.idx(n), s.idx(n), s.idx(nkeys)));
+    let sim_seed = src.u64_any();
+    let mut sim = match mode { 0 => MultiNodeSimulation::new(n, sim_seed), 1 => MultiNodeSimulation::new_without_anti_entropy(n, sim_seed), _ => MultiNodeSimulation::new_partitioned(n, rf, sim_seed) }
+        .with_packet_loss(loss).with_message_delay(delay.0, delay.1);
+    let trace = ctx.trace;
+    rep.log(trace, || format!("repo simulator: {} nodes, mode {} (rf {}), loss {}, delay {:?}, {} keys", n, ["broadcast+auto-anti-entropy", "broadcast", "ring-routed"][mode as usize], rf, loss, delay, nkeys));
+    // every write with the stamp the accepting node gave it
+    let mut writes: BTreeMap<String, Vec<((u64, u64), Option<String>)>> = BTreeMap::new();
+    let mut uniq = 0u64;
+    let mut fp = fnv(0, format!("{}{}{}{}{:?}", n, mode, rf, loss, delay).as_bytes());
+    for (kind, a, b2, k) in &ops {
+        fp = fnv(fp, &[*kind as u8, *a as u8, *b2 as u8, *k as u8]);
+        let key = format!("k{}", k);
+        match kind {
+            0 | 1 => {
+                uniq += 1;
+                let (cmd, val) = if *kind == 0 { let v = format!("v{}", uniq); (Command::set(key.clone(), SDS::from_str(&v)), Some(v)) } else { (Command::del(key.clone()), None) };
+                let r = sim.execute(0, *a, cmd);
+                if let Some(rv) = sim.nodes[*a].replica_state.replicated_keys.get(&key) {
+                    let st = (rv.timestamp.time, rv.timestamp.replica_id.0);
+                    // a DEL of a key the node has never heard of records nothing new
+                    let fresh = writes.get(&key).map(|w| w.iter().all(|(s0, _)| *s0 != st)).unwrap_or(true);
+                    if fresh { writes.entry(key.clone()).or_default().push((st, val.clone())); }
+                    rep.log(trace, || format!("node{} {} {} -> {:?}  stamp {:?}", a, if *kind == 0 { "SET" } else { "DEL" }, key, r, st));
+                }
+            }
+            2 => { if a != b2 { sim.partition(*a, *b2); rep.fault("net_partition"); rep.log(trace, || format!("partition {}-{}", a, b2)); } }
+            3 => { if a != b2 { sim.heal_partition(*a, *b2); rep.log(trace, || format!("heal {}-{}", a, b2)); } }
+            4 => { sim.advance_time_ms(10); sim.gossip_round(); rep.log(trace, || "gossip round".to_string()); }
+            _ => { sim.advance_time_ms(100); }
+        }
+    }
+    if loss > 0.0 { rep.fault("net_loss"); }
+    // ---- faults stop: heal everything, no more loss; gossip drains, anti-entropy repairs what was lost for good
+    for a in 0..n { for b2 in (a + 1)..n { sim.heal_partition(a, b2); } }
+    sim.packet_loss_rate = 0.0;
+    sim.converge(12);
+    let mut rounds = 0;
+    loop {
+        sim.run_full_anti_entropy();
+        sim.converge(3);
+        rounds += 1;
+        let mut equal = true;
+        for a in 0..n { for b2 in (a + 1)..n { if sim.nodes[a].generate_digest().differs_from(&sim.nodes[b2].generate_digest()) { equal = false; } } }
+        if equal || rounds >= 12 { break; }
+    }
+    rep.evals = 1;
+    let ring = sim.hash_ring.clone();
+    for (key, ws) in &writes {
+        rep.evals += 1;
+        let (best, want) = ws.iter().max_by_key(|(s0, _)| *s0).cloned().expect("non-empty");
+        if ws.iter().map(|(s0, _)| s0.1).collect::<BTreeSet<_>>().len() >= 2 { rep.nontrivial = true; *rep.probes.entry("same_key_written_at_two_nodes").or_insert(0) += 1; }
+        let owners: Vec<usize> = match &ring { Some(r) => r.read().expect("ring").get_replicas(key).iter().map(|x| x.0 as usize - 1).collect(), None => (0..n).collect() };
+        for o in owners {
+            let held = sim.nodes[o].get_replicated_value(key);
+            if held != want {
+                rep.violate("C06/repo-simulator/replica-does-not-hold-greatest-stamp", format!("after partitions healed, loss stopped, 12+ gossip rounds and {} full anti-entropy passes: node {} (responsible for {}) holds {:?} but the write with the greatest stamp {:?} is {:?}; all writes {:?}; all nodes hold {:?}", rounds, o, key, held, best, want, ws, sim.get_all_values(key)));
+                rep.fingerprint = fp; return rep;
+            }
+            let served = match sim.nodes[o].executor.execute(&Command::Get(key.clone())) { RespValue::BulkString(Some(b)) => Some(String::from_utf8_lossy(&b).into_owned()), _ => None };
+            if served != held {
+                rep.violate("C06/repo-simulator/served-differs-from-replication-state", format!("node {} serves {:?} for {} but its replication state says {:?}", o, served, key, held));
+                rep.fingerprint = fp; return rep;
+            }
+        }
+    }
+    rep.fingerprint = fp;
+    let gossip_kind = ["broadcast+auto-anti-entropy", "broadcast", "ring-routed"][mode as usize];
+    rep.sample = Some(serde_json::json!({"mode": "repo cluster simulator", "nodes": n, "gossip": gossip_kind, "rf": rf, "loss": loss, "ops": ops.len(), "keys_written": writes.len()}));
+    rep
 }
